@@ -1,3 +1,5 @@
+import re
+
 from .. import build, core
 from .c18 import symbolize, site
 
@@ -11,7 +13,8 @@ def run(ctx):
         exe = build.driver(variant, "c20_res", ["c20_res.c", "wrap_sys.c"], wraps=build.WRAPS_ALL, extra=["-no-pie"])
         for i in range(3 if q else 8):
             jobs.append(dict(cmd=[exe, "--R", str(4 if q else 25), "--concat", str(40 if q else 1500), "--seed", str(ctx.seed * 100 + i)], variant=variant, tag="%s seed%d" % (variant, i), exe=exe,
-                             san_ctx="c20", hang_is_violation=False))
+                             san_ctx="c20", hang_is_violation=False,
+                             env=({"VH_LSAN": "1", "ASAN_OPTIONS": core.SAN_ENV["ASAN_OPTIONS"].replace("detect_leaks=0", "detect_leaks=1")} if variant == "asan" else None)))
     res = core.run_jobs(ctx, jobs, timeout=600 if q else 3600, workers=6)
     tot = {}
     for job, r in res:
@@ -27,6 +30,20 @@ def run(ctx):
                 for k, v in o.items():
                     if isinstance(v, int) and k != "viol":
                         tot[k] = tot.get(k, 0) + v
+            elif o.get("ev") == "lsan":
+                tot["lsan_checks"] = tot.get("lsan_checks", 0) + 1
+                if o.get("leaks"):
+                    for blk in re.split(r"\n(?=(?:Direct|Indirect) leak of )", r.err):
+                        if not blk.startswith("Direct leak"):
+                            continue
+                        fr = re.findall(r"#\d+ 0x[0-9a-f]+ in (\S+)", blk)
+                        if any(x in ("va_malloc", "va_realloc") for x in fr):
+                            continue           # came through the allocator table: judged by the tracked-allocation oracle above
+                        libfr = [x for x in fr if re.match(r"pp?_[a-z]", x)]
+                        if not libfr:
+                            continue           # allocated by the harness itself
+                        ctx.violation("resource=libc-allocation symptom=leak via=%s in=%s" % (fr[1] if len(fr) > 1 else fr[0], "<".join(libfr[:2])),
+                                      "%s ; obtained from the C library during %s and unreachable after every object was freed and the library shut down" % (blk.splitlines()[0], "<".join(libfr[:2])), {"report": blk[:3000]})
             elif o.get("ev") == "sample":
                 ctx.sample(o)
             elif o.get("ev") == "leakblocks":
@@ -41,7 +58,7 @@ def run(ctx):
     cov["rule"] = ("evaluations = scenario executions (27 create-use-free sequences across all modules incl. failing exits: refused / timed-out connect, accept time-out, bind to a used port, missing INI file / directory / library, "
                    "IPC objects opened by several handles with equal, larger, smaller and zero sizes, joinable and detached threads, TLS keys). distinct_nontrivial = neutrality checks performed "
                    "(after each repetition of each scenario and after each random concatenation of 2-7 scenarios; every concatenation is a distinct PRNG draw): tracked allocations, /proc/self/fd, /dev/shm mappings, "
-                   "the sequence's IPC names, descriptor life-cycle table.")
+                   "the sequence's IPC names, descriptor life-cycle table; at the end of each ASan driver the sanitizer's leak checker is asked for memory the library obtained from libc directly and left unreachable.")
     cov["totals"] = tot
     if tot.get("neutrality_checks", 0) < 20 or tot.get("descriptors_tracked", 0) < 10:
         raise core.Inconclusive("too little observed")
